@@ -4,6 +4,7 @@ import Driver.Exec
 import Driver.Hash
 import Driver.Lex
 import Driver.Format
+import Driver.Sort
 open Lean
 
 def dispatch (j : Json) : Json :=
@@ -14,6 +15,7 @@ def dispatch (j : Json) : Json :=
   | "hash.sum" => Driver.handleHashSum j
   | "lex.scan" => Driver.handleLexScan j
   | "fmt" => Driver.handleFmt j
+  | "sort.plan" => Driver.handleSortPlan j
   | "h1" => Json.mkObj [("h", Atlas.Base.h1 (Driver.unhex (Driver.str j "hex")))]
   | op => Json.mkObj [("err", s!"unknown-op:{op}")]
 
